@@ -44,13 +44,7 @@ func TimeoutScenario(o TOOpts) *engine.Scenario {
 		}
 		if o.Update {
 			st = append(st, fixed(Tx("store", "store(setup)", StoreMsg(w, StoreP{Signer: world.O, Relayer: world.G, Gateway: world.G, DataId: world.Data1, CommitId: world.Data1, Size: o.Size, Replica: 1, Duration: 7200, Timeout: 100}))),
-				CompleteNth(1, 0),
-				func(w *world.World, ctx sdk.Context) engine.Op {
-					m, _ := w.App.ModelKeeper.GetMetadata(ctx, world.Data1)
-					return Tx("update", "update(setup)", StoreMsg(w, StoreP{Signer: world.O, Relayer: world.G, Gateway: world.G, DataId: world.Data1, CommitId: m.Commit + "|" + commitName(2), Size: o.Size, Replica: o.Replica, Duration: o.Duration, Timeout: o.Timeout, Cid: world.Cid2}))
-				})
-		} else {
-			st = append(st, fixed(Tx("store", "store(setup)", StoreMsg(w, StoreP{Signer: world.O, Relayer: world.G, Gateway: world.G, DataId: world.Data1, CommitId: world.Data1, Size: o.Size, Replica: o.Replica, Duration: o.Duration, Timeout: o.Timeout}))))
+				CompleteNth(1, 0))
 		}
 		return st
 	}}}
@@ -58,6 +52,13 @@ func TimeoutScenario(o TOOpts) *engine.Scenario {
 		var out []engine.Op
 		a := w.App
 		h := ctx.BlockHeight()
+		// the order under test is created by the first explored step (so that the oracles see its creation)
+		if cnt := a.OrderKeeper.GetOrderCount(ctx); !o.Update && cnt == 1 {
+			return []engine.Op{Tx("store", "store(order-under-test)", StoreMsg(w, StoreP{Signer: world.O, Relayer: world.G, Gateway: world.G, DataId: world.Data1, CommitId: world.Data1, Size: o.Size, Replica: o.Replica, Duration: o.Duration, Timeout: o.Timeout}))}
+		} else if o.Update && cnt == 2 {
+			m, _ := a.ModelKeeper.GetMetadata(ctx, world.Data1)
+			return []engine.Op{Tx("update", "update(order-under-test)", StoreMsg(w, StoreP{Signer: world.O, Relayer: world.G, Gateway: world.G, DataId: world.Data1, CommitId: m.Commit + "|" + commitName(2), Size: o.Size, Replica: o.Replica, Duration: o.Duration, Timeout: o.Timeout, Cid: world.Cid2}))}
+		}
 		for _, ord := range a.OrderKeeper.GetAllOrder(ctx) {
 			if ord.Operation == 3 {
 				continue
@@ -117,10 +118,10 @@ func TimeoutFamily(id, tier string, p map[string]bool) []*engine.Scenario {
 		opts = append(opts, o)
 	}
 	// quick: the combinations that reach re-assignment, give-up (cancel and replica reduction) and the guard
-	add(TOOpts{NSP: 2, Replica: 1, Timeout: 10, Duration: 3600, Depth: 16})
-	add(TOOpts{NSP: 3, Replica: 2, Timeout: 10, Duration: 3600, Depth: 16})
-	add(TOOpts{NSP: 2, Replica: 2, Timeout: 10, Duration: 3600, Spare: true, Depth: 16})
-	add(TOOpts{NSP: 2, Replica: 1, Timeout: 10, Duration: 3600, Update: true, Cancel: true, Depth: 15})
+	add(TOOpts{NSP: 2, Replica: 1, Timeout: 10, Duration: 3600, Depth: 17})
+	add(TOOpts{NSP: 3, Replica: 2, Timeout: 10, Duration: 3600, Depth: 17})
+	add(TOOpts{NSP: 2, Replica: 2, Timeout: 10, Duration: 3600, Spare: true, Depth: 17})
+	add(TOOpts{NSP: 2, Replica: 1, Timeout: 10, Duration: 3600, Update: true, Cancel: true, Depth: 16})
 	add(TOOpts{NSP: 2, Replica: 1, Timeout: 1800, Duration: 3600, Depth: 5})
 	add(TOOpts{NSP: 3, Replica: 2, Timeout: 1200, Duration: 3600, Migrate: true, Depth: 6})
 	if tier == "thorough" {
@@ -130,7 +131,7 @@ func TimeoutFamily(id, tier string, p map[string]bool) []*engine.Scenario {
 		add(TOOpts{NSP: 3, Replica: 1, Timeout: 400, Duration: 3600, Depth: 14})
 		add(TOOpts{NSP: 3, Replica: 2, Timeout: 3600, Duration: 7200, Depth: 5})
 		add(TOOpts{NSP: 4, Replica: 2, Timeout: 100, Duration: 3600, Migrate: true, Depth: 9})
-		add(TOOpts{NSP: 2, Replica: 2, Timeout: 300, Duration: 3600, Spare: true, Depth: 16})
+		add(TOOpts{NSP: 2, Replica: 2, Timeout: 300, Duration: 3600, Spare: true, Depth: 17})
 	}
 	var out []*engine.Scenario
 	for _, o := range opts {
